@@ -306,6 +306,37 @@ def rule_space(ctx, rule):
     except AnalysisError as e:
         ctx.undecided(rule, str(e))
     ref = q.func("unquote")
+    # behaviour table: unquote(normalize_space=True) and the four bindings, interpreted on one string per whitespace class
+    # (raw / escaped, ASCII / non-ASCII, with and without another escape, decoded by the same pass): no whitespace character
+    # of any kind is left raw, and nothing else is lost
+    import re as _re2
+    from ..microeval import run_function, module_value, call_value, Raised
+    probes = ["a b", "a%20b", "a\u00a0b", "a%C2%A0b", "%E3%80%80", "a\u3000", "a%E2%80%A8b%41", "a b%2Fc", "%20 ", "a\tb%09c", "a\nb", " a%41 ", "50%25 off", "x%E2%80%83y z"]
+    site_u = q.site(ref.node)
+    try:
+        for text in probes:
+            try:
+                got = run_function(ctx.repo, ref, [text], {"normalize_space": True})
+            except Raised as e:
+                got = None
+                ctx.ob(rule, "table/unquote/%r" % text, False, "unquote(%r, normalize_space=True) raises %s" % (text, e.name), site_u, witness=text)
+                continue
+            ws = _re2.search(r"\s", got)
+            from urllib.parse import unquote_to_bytes as _utb
+            kept = _utb(got) == _utb(text)  # the fully decoded content is the same: nothing lost, nothing invented
+            ctx.ob(rule, "table/unquote/%r" % text, ws is None and kept,
+                   "unquote(%r, normalize_space=True) gives %r: %s" % (text, got, "a raw whitespace character is left (it is stripped or split on by the next pass)" if ws else "other characters changed"), site_u, witness=text,
+                   sample="unquote(%r, normalize_space=True) -> %r" % (text, got) if text in ("a%C2%A0b", "a b%2Fc") else None)
+        for name in sorted(F.COMPONENTS):
+            cb = module_value(ctx.repo, "quote", name)
+            for text in probes:
+                try:
+                    got = call_value(ctx.repo, cb, [text])
+                except Raised as e:
+                    got = "raises " + e.name
+                ctx.ob(rule, "table/%s/%r" % (name, text), _re2.search(r"\s", got) is None, "%s(%r) gives %r: a raw whitespace character is left" % (name, text, got), site_u, witness=text)
+    except Unknown as e:
+        ctx.undecided(rule, "unquote not interpretable: %s" % e)
     ex = P.Extractor(ctx.repo, atomic={"ural.quote._generate_unquoted_parts"})
     rets = [r for r in ex.function(ref) if r.kind == "return"]
     ctx.require_instances(rule, len(rets), 1, "return paths of unquote")
@@ -623,8 +654,21 @@ def rule_c1(ctx, rule, sets):
         try:
             a = A.regex(rx.pattern, rx.flags, "fullmatch")
             c1 = A.regex("[\x80-\x9f]", 0, "fullmatch")
-            return A.subset(c1, a) is None
+            if A.subset(c1, a) is not None:
+                return False
         except Unsupported:
+            return False
+        # ... and the callback writes the character's UTF-8 bytes as escapes (not its code point)
+        cb = op[2][0] if op[2] else None
+        if cb is None or cb[0] not in ("funcref", "global"):
+            return False
+        try:
+            import re as _re
+            from ..microeval import module_value, call_value
+            cmod, _, cname = cb[1].rpartition(".")
+            v = module_value(repo, cmod, cname)
+            return all(call_value(repo, v, [_re.match(r"[\s\S]", ch)]) == exp for ch, exp in (("\x85", "%C2%85"), ("\x80", "%C2%80"), ("\x9f", "%C2%9F")))
+        except (Unknown, AnalysisError):
             return False
 
     n = 0
@@ -684,11 +728,57 @@ def _check_error_handler(ctx, rule, q, name, decode_call):
            q.site(ref.node), witness="/price%E2%82/x", sample="handler returns (%s, %s)" % (P.show(text, maxdepth=6), P.show(pos)))
 
 
+QSL_MAPPER_ITEMS = [("k", "v"), ("k", ""), ("k", None), ("", "v"), ("a%3Db", None), ("a%3Db", "c%3Dd"), ("k%26x", "v%26y"), ("k%23", "v%23"), ("k%41", "v%42"), ("k k", "v v"), ("caf%C3%A9", "%E9"), ("%", "100%"), ("k", "a=b")]
+
+
+def _qsl_mapper_cells(repo):
+    """both mappers interpreted on one item per class: [(description, ok)]"""
+    from ..microeval import run_function, Raised
+    q = repo.mod("quote")
+    out = []
+    for fn in ("safely_unquote_qsl", "safely_quote_qsl"):
+        ref = q.func(fn)
+        try:
+            got = list(run_function(repo, ref, [list(QSL_MAPPER_ITEMS)]))
+        except Raised as e:
+            out.append(("%s(<%d items>) raises %s" % (fn, len(QSL_MAPPER_ITEMS), e.name), False))
+            continue
+        out.append(("%s keeps the number of items (%d -> %d)" % (fn, len(QSL_MAPPER_ITEMS), len(got)), len(got) == len(QSL_MAPPER_ITEMS)))
+        for (k, v), item in zip(QSL_MAPPER_ITEMS, got):
+            item = tuple(item) if isinstance(item, (list, tuple)) else (item,)
+            desc = "%s([(%r, %r)]) -> %r" % (fn, k, v, item)
+            if len(item) != 2:
+                out.append((desc, False))
+                continue
+            k2, v2 = item
+            ok = isinstance(k2, str) and ((v is None) == (v2 is None)) and (v is None or isinstance(v2, str)) and ((v == "") == (v2 == "") if v is not None else True)
+            if ok and fn == "safely_unquote_qsl":
+                # no new delimiter: a key (or a bare item) gains no raw '=', '&', '#'; a value gains no raw '&', '#'
+                ok = all(k2.count(ch) == k.count(ch) for ch in "=&#") and (v is None or all(v2.count(ch) == v.count(ch) for ch in "&#"))
+                # and what can be decoded is: %41 -> A, valid UTF-8 -> text, the rest stays
+                ok = ok and (k, k2) not in (("k%41", "k%41"), ("caf%C3%A9", "caf%C3%A9")) and " " not in k2 and (v2 is None or " " not in v2)
+            if ok and fn == "safely_quote_qsl":
+                ok = all(ord(c) < 128 and c not in " &#" for c in k2 + (v2 or "")) and "=" not in k2.replace("%3D", "") and ("%41" in k2) == ("%41" in k) and "%2541" not in k2
+            out.append((desc, ok))
+    return out
+
+
 def rule_qsl_mappers(ctx, rule):
     """safely_quote_qsl / safely_unquote_qsl map every item, keep a None value None and treat '' as a value."""
-    ctx.rule(rule, "query-list mappers agree: safely_quote_qsl and safely_unquote_qsl map every (key, value) item without filtering, and only a value that IS None stays None (a truthiness test would turn 'k=' into the bare key 'k' in one mode only)")
+    ctx.rule(rule, "query-list mappers agree: safely_quote_qsl and safely_unquote_qsl, interpreted on one (key, value) item per class {plain, empty value, bare key, empty key, escaped '=' / '&' / '#' in key / bare key / value, decodable escape, raw space, UTF-8 / invalid escape, lone '%'}, keep every item, keep None None and '' '', never give a key (or a bare item) a new raw '=', '&' or '#' nor a value a new '&' or '#', and quote to pure ASCII without re-escaping existing escapes; shape: a comprehension over the given list whose value test is an identity test against None")
     repo = ctx.repo
     q = repo.mod("quote")
+    try:
+        cells = _qsl_mapper_cells(repo)
+    except Unknown as e:
+        ctx.undecided(rule, "query-list mappers not interpretable: %s" % e)
+        cells = None
+    if cells is not None:
+        for fn in ("safely_quote_qsl", "safely_unquote_qsl"):
+            ctx.fn("ural.quote." + fn)
+        site0 = q.site(q.func("safely_unquote_qsl").node)
+        for desc, ok in cells:
+            ctx.ob(rule, "cell/%s" % desc.split(" -> ")[0][:70], ok, "%s: an item is lost, a missing value and an empty value are confused, or a delimiter / non-ASCII character appears" % desc, site0, witness=desc.split(" -> ")[0])
     ex = P.Extractor(repo, atomic={"ural.quote.safely_quote", "ural.quote.unquote"})
     n = 0
     for fn in ("safely_quote_qsl", "safely_unquote_qsl"):
@@ -697,15 +787,17 @@ def rule_qsl_mappers(ctx, rule):
         site = q.site(ref.node)
         t = P.strip_inl(ex.result_term(ex.function(ref)))
         if not (t[0] == "comp" and len(t[3]) == 1 and t[2][0] == "tuple" and len(t[2][1]) == 2):
-            ctx.undecided(rule, "%s is not a comprehension of (key, value) pairs: %s" % (fn, P.show(t, maxdepth=4)))
+            if cells is None:
+                ctx.undecided(rule, "%s is not a comprehension of (key, value) pairs: %s" % (fn, P.show(t, maxdepth=4)))
             continue
         n += 1
         names, it, ifs = t[3][0]
-        ctx.ob(rule, fn + "/maps-every-item", not ifs and it == ("param", "qsl"), "%s filters or replaces the items it is given (%s)" % (fn, P.show(t, maxdepth=4)), site)
+        ctx.ob(rule, fn + "/maps-every-item", not ifs and it == ("param", "qsl"), "%s filters or replaces the items it is given (%s)" % (fn, P.show(t, maxdepth=4)), site, cells=(lambda: cells) if cells else None)
         v = t[2][1][1]
         conds = F.atomic_conditions(v)
         truthy = [c for c in conds if not (c[0] == "cmp" and c[1] == "IsNot" and c[3] == ("const", None))]
         ctx.ob(rule, fn + "/none-test-by-identity", not truthy,
                "%s decides whether an item has a value with `%s` instead of `value is not None`: the empty value of 'k=' becomes None and the item is written as the bare key 'k'" % (fn, "; ".join(P.show(c, maxdepth=3) for c in truthy)),
-               site, witness="http://a.com/?k=")
-    ctx.require_instances(rule, n, 2, "query-list mappers")
+               site, witness="http://a.com/?k=", cells=(lambda: cells) if cells else None)
+    if cells is None:
+        ctx.require_instances(rule, n, 2, "query-list mappers")
